@@ -3,6 +3,7 @@ package main
 import (
 	"context"
 	"fmt"
+	"golang.org/x/sys/unix"
 	"os"
 	"path"
 	"path/filepath"
@@ -137,6 +138,34 @@ func c09Run(c *core.Ctx) *core.Result {
 	if err := tree.Materialise(src, t); err != nil {
 		r.Inconclusive = "materialise: " + err.Error()
 		return r
+	}
+	// mount points inside the tree: inode numbers are unique per file system
+	// only, and two fresh tmpfs instances hand out the same ones. A file of
+	// the second mount that has several names must not be taken for a link of
+	// an unrelated file of the first mount.
+	if c.R.P(1, 60) {
+		mounted := []string{}
+		for _, nm := range []string{"zm1", "zm2"} {
+			d := filepath.Join(src, nm)
+			if os.Mkdir(d, 0755) != nil || unix.Mount("tmpfs", d, "tmpfs", 0, "size=1m") != nil {
+				break
+			}
+			mounted = append(mounted, d)
+		}
+		defer func() {
+			for _, d := range mounted {
+				unix.Unmount(d, unix.MNT_DETACH)
+			}
+		}()
+		if len(mounted) == 2 {
+			os.WriteFile(filepath.Join(mounted[0], "a"), []byte("ONE"), 0644)
+			os.WriteFile(filepath.Join(mounted[0], "c"), []byte("ONE-C"), 0600)
+			os.WriteFile(filepath.Join(mounted[1], "a"), []byte("TWO-TWO"), 0644)
+			os.Link(filepath.Join(mounted[1], "a"), filepath.Join(mounted[1], "b"))
+			os.WriteFile(filepath.Join(mounted[1], "c"), []byte("TWO-C"), 0600)
+			os.Link(filepath.Join(mounted[1], "c"), filepath.Join(mounted[1], "d"))
+			r.Count("trees_with_two_mounted_file_systems", 1)
+		}
 	}
 	snap, err := tree.Snapshot(src, tree.SnapOpt{})
 	if err != nil {
